@@ -59,6 +59,8 @@ type c03Expel struct {
 
 type c03Cand struct {
 	ExpelVP bool       `json:"xvp"` // INIT/ACCEPTExpelVoteproof instead of the plain type
+	Stuck   bool       `json:"stuck,omitempty"` // INIT/ACCEPTStuckVoteproof (ExpelVP is set too); see c03_stuck_test.go
+	ThNet   bool       `json:"thnet,omitempty"` // stuck only: the threshold field carries the network's t instead of 100 (negative)
 	Expels  []c03Expel `json:"e,omitempty"`
 	Votes   []c03Vote  `json:"v"`
 	Maj     *c03Fact   `json:"m"` // claimed majority; nil = DRAW
@@ -102,6 +104,14 @@ func (f c03Fact) name(n int) string {
 
 func (c *c03Cand) id(n int) string {
 	var sb strings.Builder
+
+	if c.Stuck {
+		sb.WriteString("S")
+
+		if c.ThNet {
+			sb.WriteString("!thnet")
+		}
+	}
 
 	if c.ExpelVP {
 		sb.WriteString("X[")
@@ -162,7 +172,7 @@ func (c *c03Cand) id(n int) string {
 }
 
 func (c *c03Cand) clone() *c03Cand {
-	d := &c03Cand{ExpelVP: c.ExpelVP}
+	d := &c03Cand{ExpelVP: c.ExpelVP, Stuck: c.Stuck, ThNet: c.ThNet}
 	d.Expels = make([]c03Expel, len(c.Expels))
 
 	for i := range c.Expels {
@@ -466,6 +476,10 @@ func (w *c03World) build(c *c03Cand, t10 int, cache c03OpCache) base.Voteproof {
 		}
 	}
 
+	if c.Stuck {
+		return w.buildStuck(c, th, sfs, maj, expels)
+	}
+
 	switch {
 	case w.stage == base.StageINIT && !c.ExpelVP:
 		vp := NewINITVoteproof(w.point)
@@ -525,6 +539,10 @@ const (
 // different class than the known one, and (b) counts disagreements with the real
 // code as information.
 func c03ModelAccept(n, t10 int, c *c03Cand) (bool, string) {
+	if c.Stuck {
+		return c03ModelAcceptStuck(n, t10, c)
+	}
+
 	q := c03Quorum(n, t10)
 
 	if len(c.Votes) < 1 {
@@ -738,10 +756,11 @@ type c03Accepted struct {
 	gt        bool              // expels more than n-q nodes
 	outside   bool              // accepted by the real code, rejected by the reference rule
 	needsExSg bool              // some expel has fewer than the required signs when signs of expelled nodes are not counted
+	stuck     bool              // stuck voteproof
 }
 
 func c03Describe(n, t10 int, c *c03Cand, outside bool) *c03Accepted {
-	a := &c03Accepted{cand: c, id: c.id(n), maj: c.Maj, votes: map[int][]c03Fact{}, outside: outside}
+	a := &c03Accepted{cand: c, id: c.id(n), maj: c.Maj, votes: map[int][]c03Fact{}, outside: outside, stuck: c.Stuck}
 
 	for _, v := range c.Votes {
 		var dup bool
@@ -766,7 +785,7 @@ func c03Describe(n, t10 int, c *c03Cand, outside bool) *c03Accepted {
 		a.gt = a.expelled > n-c03Quorum(n, t10)
 
 		th := c03Quorum(n, t10)
-		if a.gt {
+		if a.gt || c.Stuck { // a stuck voteproof carries threshold 100: every expel needs n-k signs only
 			th = n - a.expelled
 		}
 
@@ -810,7 +829,12 @@ func (a *c03Accepted) key() string {
 		m = fmt.Sprint(*a.maj)
 	}
 
-	return fmt.Sprintf("%s|m=%s|k=%d|gt=%v|out=%v|xs=%v", sb.String(), m, a.expelled, a.gt, a.outside, a.needsExSg)
+	k := fmt.Sprintf("%s|m=%s|k=%d|gt=%v|out=%v|xs=%v", sb.String(), m, a.expelled, a.gt, a.outside, a.needsExSg)
+	if a.stuck {
+		k += "|stuck"
+	}
+
+	return k
 }
 
 // equivocators = nodes that signed two different facts for the stage point,
@@ -856,6 +880,14 @@ func c03Kinds(a, b *c03Accepted) string {
 		kb = "expel"
 	}
 
+	if a.cand.Stuck {
+		ka = "stuck"
+	}
+
+	if b.cand.Stuck {
+		kb = "stuck"
+	}
+
 	if ka > kb {
 		ka, kb = kb, ka
 	}
@@ -894,6 +926,11 @@ func c03CheckPair(r *vlib.Run, n, t10 int, stage base.Stage, a, b *c03Accepted) 
 		"some_vp_expels_gt_n_minus_q":      a.gt || b.gt,
 		"accepted_outside_reference_rule":  a.outside || b.outside,
 		"vp_kinds":                         c03Kinds(a, b),
+	}
+
+	if a.stuck || b.stuck {
+		// only set when true: the classes of the other pairs keep their signature
+		sig["stuck_voteproof_with_majority"] = true
 	}
 
 	names := make([]string, len(who))
@@ -967,6 +1004,10 @@ func (w *c03World) eval(l *c03Local, t10 int, c *c03Cand) {
 		kind := "plain"
 		if c.ExpelVP {
 			kind = "expel"
+		}
+
+		if c.Stuck {
+			kind = "stuck"
 		}
 
 		res := "majority"
@@ -1745,6 +1786,10 @@ func c03RunConfig(r *vlib.Run, cfg c03Config, workers int, stop *atomic.Bool) {
 		}
 
 		jobs = append(jobs, func(l *c03Local) { w.deviations(l, cfg.t10, emask, cfg.reduced) })
+
+		if emask != 0 && emask != 1<<n-1 {
+			jobs = append(jobs, func(l *c03Local) { w.stuckProduct(l, cfg.t10, emask, cfg.reduced) })
+		}
 	}
 
 	if cfg.t10 == 670 && n >= 2 && n <= 6 {
@@ -1944,7 +1989,7 @@ func TestVerifC03(t *testing.T) {
 		"constructions through SuffrageVoting.Find are validated too (t=67). non-trivial = distinct ACCEPTED " +
 		"descriptor (voter->facts map, majority, number of expelled nodes, class flags); all pairs of accepted " +
 		"descriptors that carry a majority are compared: different majority facts and <= f nodes having signed two " +
-		"different facts = violation." + c03fRule)
+		"different facts = violation." + c03sRule + c03fRule)
 	r.Assume("accepted == IsValidVoteproofWithSuffrage(vp, suf)==nil && vp.IsValid(networkID)==nil, evaluated in that order (both are pure)")
 	r.Assume("both voteproofs of a pair carry the network's threshold t in their threshold field; the field itself is attacker-chosen and is compared with the local parameter elsewhere")
 	r.Assume("stuck voteproofs and suffrage-confirm facts are not enumerated: they carry no majority fact / share the INIT fact hash")
